@@ -6,6 +6,7 @@ import (
 	"fmt"
 	"math"
 	"math/big"
+	"reflect"
 	"sort"
 	"strconv"
 	"strings"
@@ -23,9 +24,43 @@ func Enc(v any) string {
 	return sb.String()
 }
 
+// Cyclic reports whether an encoding met a container that contains itself (JSON values are trees).
+func Cyclic(enc string) bool { return strings.Contains(enc, cycleMark) }
+
+const cycleMark = "<cycle>"
+
+// cycleFrom: below this depth the containers on the current path are tracked.
+const cycleFrom = 64
+
 const maxDepth = 10000
 
-func enc(sb *strings.Builder, v any, depth int) {
+func enc(sb *strings.Builder, v any, depth int) { encp(sb, v, depth, nil) }
+
+func encp(sb *strings.Builder, v any, depth int, path map[uintptr]bool) {
+	if depth >= cycleFrom {
+		var p uintptr
+		switch v := v.(type) {
+		case []any:
+			if len(v) > 0 {
+				p = reflect.ValueOf(v).Pointer()
+			}
+		case map[string]any:
+			if len(v) > 0 {
+				p = reflect.ValueOf(v).Pointer()
+			}
+		}
+		if p != 0 {
+			if path == nil {
+				path = map[uintptr]bool{}
+			}
+			if path[p] {
+				sb.WriteString(cycleMark)
+				return
+			}
+			path[p] = true
+			defer delete(path, p)
+		}
+	}
 	if depth > maxDepth {
 		sb.WriteString("<too-deep>")
 		return
@@ -70,7 +105,7 @@ func enc(sb *strings.Builder, v any, depth int) {
 			if i > 0 {
 				sb.WriteString(",")
 			}
-			enc(sb, x, depth+1)
+			encp(sb, x, depth+1, path)
 		}
 		sb.WriteString("]")
 	case map[string]any:
@@ -86,7 +121,7 @@ func enc(sb *strings.Builder, v any, depth int) {
 			}
 			sb.WriteString(strconv.Quote(k))
 			sb.WriteString(":")
-			enc(sb, v[k], depth+1)
+			encp(sb, v[k], depth+1, path)
 		}
 		sb.WriteString("}")
 	case error:
